@@ -569,9 +569,9 @@ func TestC17_ReadAndWriteInFlight(t *testing.T) {
 				collect()
 				if fs, _ := rfc6455.ParseAll(wire); len(fs) > 0 && fs[len(fs)-1].Opcode == rfc6455.OpClose {
 					expWire = append(expWire, expOut{op: rfc6455.OpClose, payload: fs[len(fs)-1].Payload, what: "close after an oversized message"})
-				} else {
-					fail("no Close frame at the end of the wire after a message that was too big for the reader")
 				}
+				// (whether the client announces that it gives up is not C17's business: what must hold is that every
+				// frame submitted reached the wire once and nothing else did, which the comparison below decides)
 			case "asyncClose":
 				cr := &cbRec{what: fmt.Sprintf("close#%d", len(cbs))}
 				cbs = append(cbs, cr)
